@@ -6,6 +6,10 @@
 // unchanged (copy forms) or empty-and-valid (move forms), the two arrays share no storage, later writes to one are invisible to the other, the live-object
 // registry and the ledger are clean and nothing leaks.  Every batch runs in a forked child.
 #include "../engine/hist_model.hpp"
+#if __has_include(<execution>)
+#include <execution>
+#define PM_HAVE_EXECUTION 1
+#endif
 
 #ifndef PM_D
 #define PM_D 2
@@ -16,11 +20,26 @@ using vm::idx;
 using instr::W;
 #include "../engine/ext_grid.hpp"
 
-enum Form { F_COPY_ASSIGN, F_MOVE_ASSIGN, F_CONVERTING_ASSIGN, F_OTHER_ALLOC_ASSIGN, F_VIEW_ASSIGN, F_CONST_VIEW_ASSIGN, F_COPY_CTOR, F_MOVE_CTOR, F_CONVERTING_CTOR, F_VIEW_CTOR, F_SWAP, F_MEMBER_SWAP, F_DECAY, F_SELF_ASSIGN, NFORMS };
+enum Form { F_COPY_ASSIGN, F_MOVE_ASSIGN, F_CONVERTING_ASSIGN, F_OTHER_ALLOC_ASSIGN, F_VIEW_ASSIGN, F_CONST_VIEW_ASSIGN, F_COPY_CTOR, F_MOVE_CTOR, F_CONVERTING_CTOR, F_VIEW_CTOR, F_SWAP, F_MEMBER_SWAP, F_DECAY, F_SELF_ASSIGN, F_POLICY_COPY_CTOR, NFORMS };
 static char const* const fname[] = {"a=b", "a=std::move(b)", "a=array<other element type>", "a=array<T,other allocator type>", "a=b()", "a=std::as_const(b)()", "Arr c(b)", "Arr c(std::move(b))", "Arr c(array<other element type>)",
-	"Arr c(b())", "swap(a,b)", "a.swap(b)", "a=+b", "a=a"};
+	"Arr c(b())", "swap(a,b)", "a.swap(b)", "a=+b", "a=a", "Arr c(std::execution::seq, b)"};
 
+// element whose user opted out of default construction (force_element_trivial_default_construction) but which has a non-trivial destructor: every object that was
+// constructed (fill / copy / converting constructions) must still be destroyed exactly once.  Counted, not registered (the library legitimately skips its default constructor).
+struct FT {
+	int v; static inline long nctor = 0, ndtor = 0;
+	FT() : v(0) { ++nctor; }
+	FT(int x) : v(x) { ++nctor; }  // NOLINT
+	FT(FT const& o) : v(o.v) { ++nctor; }
+	FT& operator=(FT const&) = default;
+	~FT() { ++ndtor; }
+	friend bool operator==(FT const& a, FT const& b) { return a.v == b.v; }
+	friend bool operator!=(FT const& a, FT const& b) { return a.v != b.v; }
+};
+namespace boost::multi { template<> inline constexpr bool force_element_trivial_default_construction<FT> = true; }
+namespace instr { inline int val(FT const& f) { return f.v; } }
 template<class T> struct TI;
+template<> struct TI<FT> { static constexpr char const* name = "forced-trivial-default-construction"; using alloc = std::allocator<FT>; using other = int; using otheralloc = instr::LA<FT>; };
 template<> struct TI<int> { static constexpr char const* name = "int"; using alloc = std::allocator<int>; using other = short; using otheralloc = instr::LA<int>; };
 template<> struct TI<instr::E> { static constexpr char const* name = "tracked"; using alloc = instr::LA<instr::E>; using other = int; using otheralloc = std::allocator<instr::E>; };
 
@@ -40,14 +59,14 @@ template<class T>
 static Outcome run_pair(Ext const& ea, Ext const& eb, int form) {
 	using Alloc = typename TI<T>::alloc; using Arr = multi::array<T, D, Alloc>;
 	using OArr = multi::array<typename TI<T>::other, D>; using AArr = multi::array<T, D, typename TI<T>::otheralloc>;
-	Outcome out; W.reset();
+	Outcome out; W.reset(); FT::nctor = FT::ndtor = 0;
 	auto fail = [&](std::string o, std::string d) { if(out.ok) { out.ok = false; out.oracle = std::move(o); out.detail = std::move(d); } };
 	{
-		Arr a(X(ea)); for_tuples(ea, [&](idx const* t) { at(a, t) = T(codea(t)); });
-		Arr b(X(eb)); for_tuples(eb, [&](idx const* t) { at(b, t) = T(codeb(t)); });
+		Arr a(X(ea), T(0)); for_tuples(ea, [&](idx const* t) { at(a, t) = T(codea(t)); });
+		Arr b(X(eb), T(0)); for_tuples(eb, [&](idx const* t) { at(b, t) = T(codeb(t)); });
 		bool const cf = W.count_faults; W.count_faults = false;
 		OArr ob(X(eb)); for_tuples(eb, [&](idx const* t) { at(ob, t) = static_cast<typename TI<T>::other>(codeb(t)); });
-		AArr ab(X(eb)); for_tuples(eb, [&](idx const* t) { at(ab, t) = T(codeb(t)); });
+		AArr ab(X(eb), T(0)); for_tuples(eb, [&](idx const* t) { at(ab, t) = T(codeb(t)); });
 		W.count_faults = cf;
 		std::unique_ptr<Arr> c;   // constructed result, if the form constructs
 		Arr* dst = &a; bool b_moved = false, swapped = false; std::string why;
@@ -66,6 +85,12 @@ static Outcome run_pair(Ext const& ea, Ext const& eb, int form) {
 			case F_SWAP: { using std::swap; swap(a, b); swapped = true; break; }
 			case F_MEMBER_SWAP: a.swap(b); swapped = true; break;
 			case F_DECAY: if(count(eb) == 0) { return out; } a = +b; break;
+			case F_POLICY_COPY_CTOR:
+#ifdef PM_HAVE_EXECUTION
+				c = std::make_unique<Arr>(std::execution::seq, b); dst = c.get(); break;
+#else
+				return out;
+#endif
 			default: { auto& ra = a; a = ra; break; }
 		}
 		if(form == F_SELF_ASSIGN) { why = cmp_to(a, ea, codea, "a"); if(!why.empty()) { fail("self-assignment-changed-the-array", why); } if(W.nalloc != nal || W.ncopy != nc) { fail("self-assignment-copied-or-allocated", ""); } }
@@ -89,6 +114,7 @@ static Outcome run_pair(Ext const& ea, Ext const& eb, int form) {
 		}
 		if(!W.errs.empty()) { fail("registry:" + W.errs[0], ""); }
 	}
+	if(out.ok && FT::nctor != FT::ndtor) { out.ok = false; out.oracle = "leak-element"; out.detail = std::to_string(FT::nctor) + " objects constructed, " + std::to_string(FT::ndtor) + " destroyed"; }
 	if(out.ok) { if(!W.errs.empty()) { out.ok = false; out.oracle = "registry-at-destruction:" + W.errs[0]; } else if(!W.blocks.empty()) { out.ok = false; out.oracle = "leak-block"; } else if(!W.alive.empty()) { out.ok = false; out.oracle = "leak-element"; } }
 	return out;
 }
@@ -133,14 +159,15 @@ int main(int argc, char** argv) {
 		if(f.size() != 4) { std::printf("REPLAY cannot parse\n"); return 2; }
 		auto pe = [](std::string const& s) { Ext e; std::size_t p = 0; while((p = s.find('[', p)) != std::string::npos) { auto c = s.find(',', p); auto q = s.find(')', c); e.push_back({std::atol(s.substr(p + 1, c - p - 1).c_str()), std::atol(s.substr(c + 1, q - c - 1).c_str())}); p = q; } return e; };
 		Ext ea = pe(f[1]), eb = pe(f[2]); int form = std::atoi(f[3].c_str());
-		auto outs = isolated(1, [&](int) { return f[0] == "int" ? run_pair<int>(ea, eb, form) : run_pair<instr::E>(ea, eb, form); });
+		auto outs = isolated(1, [&](int) { return f[0] == "int" ? run_pair<int>(ea, eb, form) : f[0] == "tracked" ? run_pair<instr::E>(ea, eb, form) : run_pair<FT>(ea, eb, form); });
 		std::printf("REPLAY %s %s %s\n", outs[0].ok ? "OK" : "VIOLATION", outs[0].oracle.c_str(), outs[0].detail.c_str()); return outs[0].ok ? 0 : 1;
 	}
 	auto exts = all_exts(thorough);
 	grid<int>(exts, shard, nshards, prop);
 	grid<instr::E>(exts, shard, nshards, prop);
+	grid<FT>(exts, shard, nshards, prop);
 	mc::R.add("evaluations", g_evals); mc::R.add("transitions", g_evals); mc::R.add("states", static_cast<long long>(exts.size())); mc::R.add("distinct_nontrivial", g_nontrivial);
-	mc::R.note("pairmc D=" + std::to_string(D) + ": " + std::to_string(exts.size()) + " index extensions, every ordered (destination, source) pair x " + std::to_string(static_cast<int>(NFORMS)) + " forms x 2 element types");
+	mc::R.note("pairmc D=" + std::to_string(D) + ": " + std::to_string(exts.size()) + " index extensions, every ordered (destination, source) pair x " + std::to_string(static_cast<int>(NFORMS)) + " forms x 3 element types");
 	mc::R.emit(stdout);
 	return 0;
 }
